@@ -262,7 +262,7 @@ func c03Run(u C03Unit) (vs []core.Violation, nontrivial bool, sample any, steps 
 		mk("operation-fails", "", err.Error())
 		return vs, false, nil, 0, nil
 	}
-	if o.OutDirOp && cfg.Rel == "populated" {
+	if o.OutDirOp && strings.HasPrefix(cfg.Rel, "populated") {
 		rec, err := engine.Run(engine.Config{Op: cfg.Op, Rel: "emptydir"}, engine.Options{})
 		if err != nil {
 			return nil, false, nil, 0, err
